@@ -159,7 +159,7 @@ func runCorsCfg(tw *traceWriter, cfg corsCfg, reqs []corsReq) {
 }
 
 func mutateOrigin(r *rand.Rand, base string) string {
-	switch r.Intn(12) {
+	switch r.Intn(13) {
 	case 0:
 		return strings.ToUpper(base)
 	case 1:
@@ -193,6 +193,16 @@ func mutateOrigin(r *rand.Rand, base string) string {
 		return "null"
 	case 10:
 		return base + "x"
+	case 11: // flip bit 5 of one byte (the ASCII "case bit"), keeping the value printable
+		b := []byte(base)
+		for try := 0; try < 8 && len(b) > 0; try++ {
+			i := r.Intn(len(b))
+			x := b[i] ^ 0x20
+			if x > 0x20 && x < 0x7f {
+				b[i] = x
+				return string(b)
+			}
+		}
 	}
 	return base
 }
@@ -213,7 +223,8 @@ func runCors(planPath, outPath string, seed int64) {
 			runCorsCfg(tw, cfg, sh)
 		}
 	}
-	domPool := []string{"http://a.com", "https://A.com", "http://b.org", "a.com", "https://shop.example.com", "http://localhost:3000"}
+	domPool := []string{"http://a.com", "https://A.com", "http://b.org", "a.com", "https://shop.example.com", "http://localhost:3000",
+		"http://[::1]:8080", "https://user@host.test", "http://a^b.test"}
 	hdrPool := []string{"X-A", "x-a", "X-B", "Content-Type", "Authorization", "X-C"}
 	for i := 0; i < p.Random; i++ {
 		cfg := corsCfg{Pred: pick(r, []string{"none", "none", "suffix", "never", "always"}), Cookies: r.Intn(2) == 0}
@@ -269,6 +280,18 @@ func runCors(planPath, outPath string, seed int64) {
 				h := pick(r, hdrPool)
 				if r.Intn(3) == 0 {
 					h = strings.ToLower(h)
+				}
+				if r.Intn(5) == 0 && len(cfg.Headers) > 0 {
+					// a fragment of an allowed header name, or an empty element
+					a := pick(r, cfg.Headers)
+					switch r.Intn(3) {
+					case 0:
+						h = a[:r.Intn(len(a)+1)]
+					case 1:
+						h = a[r.Intn(len(a)+1):]
+					default:
+						h = ""
+					}
 				}
 				hs = append(hs, h)
 			}
